@@ -590,6 +590,12 @@ def _task_files(task):
                             asan += rr.get("asan", 0)
                             px.batch(["C_SignInit s=%d mech=%s k=%d" % (s, mech(C.CKM_SHA256_RSA_PKCS), h), "C_Sign s=%d in=x616263 out=b300" % s,
                                       "C_EncryptInit s=%d mech=%s k=%d" % (s, mech(C.CKM_AES_ECB), h), "C_Encrypt s=%d in=x%s out=b32" % (s, bytes(16).hex())])
+                        # searches that compare byte-string attributes decrypt them (also those of the damaged object); every continuation of a
+                        # search whose Init failed must be harmless as well
+                        for ft in ([(C.CKA_LABEL, b"tok-aes128")], [(C.CKA_ID, b"x")], [(C.CKA_CLASS, C.CKO_PRIVATE_KEY), (C.CKA_LABEL, b"tok-rsa1024_priv")]):
+                            for rr in px.batch(["C_FindObjectsInit s=%d tpl=%s" % (s, tpl(ft)), "C_FindObjects s=%d max=8" % s, "C_FindObjectsFinal s=%d" % s]):
+                                asan += rr.get("asan", 0)
+                        px.call("C_FindObjectsInit s=%d tpl=%s" % (s, tpl([(C.CKA_LABEL, b"tok-aes128")])))
                         px.call("C_CreateObject s=%d tpl=%s" % (s, tpl(F.template("data", token=True, private=False, label=b"after-mutation"))))
                         px.CloseSession(s)
                     r2 = px.Finalize()
